@@ -24,6 +24,8 @@ THEOREMS = [
     "C11_restored_ordered",
     "C11_restored_ordered_repaired",
     "C11_order_witness",
+    "C11_driver_exec_refused",
+    "C11_driver_exec_witness",
     "C11_no_trigger_state",
     "C11_no_trigger_state_repaired",
     "C11_allof_stale_witness",
@@ -188,6 +190,22 @@ def live_parent(sc):
     return {g: (None if n.parent is None else sc.gid[id(n.parent)]) for g, n in sc.node.items()}
 
 
+def _parking_executor():
+    """accepts jobs and never starts them: nothing depends on timing, and every hand-over is counted"""
+    from concurrent.futures import Executor, Future
+
+    class Parking(Executor):
+        def __init__(self):
+            self.parked = []
+
+        def submit(self, fn, /, *args, **kwargs):
+            f = Future()
+            self.parked.append((f, fn, args, kwargs))
+            return f
+
+    return Parking()
+
+
 class Runaway(BaseException):
     pass
 
@@ -274,7 +292,8 @@ def _refusal_state(sc, t, parents):
                     if id(c.owner) not in seen:
                         seen[id(c.owner)] = c.owner
                         todo.append(c.owner)
-        if any(x.executor is not None for x in seen.values()):
+        if any(x.executor is not None for x in seen.values()) or (
+                len(seen) > 1 and a.parent is not None and a.parent.executor is not None):
             return "exec"
         if any(x.parent is not a.parent for x in seen.values()):
             return "mixed"
@@ -387,7 +406,7 @@ def run_impl(case):
         sc.node[g].running = True  # a stale flag / a run in flight elsewhere
     pool = None
     if case.get("exec"):
-        pool = concurrent.futures.ThreadPoolExecutor(max_workers=1)
+        pool = _parking_executor()
         for g in case["exec"]:
             sc.node[g].executor = pool
     world = {
@@ -438,6 +457,7 @@ def run_impl(case):
                 "err": None if err is None else f"{type(err).__name__}: {str(err)[:200]}",
                 "exec": list(ins.exec_log),
                 "hits": list(ins.hits),
+                "submitted": 0 if pool is None else len(pool.parked),
                 "calls": [c[0] for c in nodes.CALL_LOG],
                 "obs": _derive_obs(sc, t, bool(parents), ins.exec_log),
                 "edits": edits,
@@ -457,8 +477,7 @@ def run_impl(case):
                 break
     finally:
         del junk
-        if pool is not None:
-            pool.shutdown(wait=False, cancel_futures=True)
+        pool = None
     obs = []
     for r in recs:
         obs.extend(obs_lines(sc, r, world["init"]["labels"], world["parent"]))
@@ -590,7 +609,7 @@ def _get(d, k):
 
 # the variants the driver evaluates: all repairs, each single repair missing, nothing repaired (a tree further
 # away than one missing repair diverges, which is red as well)
-TAGS = ["V0000", "V0111", "V1011", "V1101", "V1110", "V1111"]
+TAGS = ["V00000", "V01111", "V10111", "V11011", "V11101", "V11110", "V11111"]
 ALIVE = set(TAGS)  # variants that explained every case so far (the tree is ONE of them)
 VARIANT_HITS: dict = {}
 
@@ -849,6 +868,10 @@ def spec_closure(case, t):
 def place_executor(rng, case, t, par, with_parent=False):
     cands, owner = spec_closure(case, t)
     cands = sorted(cands)
+    if not with_parent and owner is not None and len(cands) > 1:
+        cands.append(owner)  # (executor) the parent that would have to drive the upstream run
+    if not with_parent and par and case["top"] == "wf":
+        cands.append(case["wfgid"])  # ... the root of the enclosing scopes
     if with_parent and owner is not None and not par:
         # (running flag) also the composite that would have to drive the upstream run; not with the parent
         # scopes: whether the `fetch` of a running ancestor raises depends on its data, which is not modelled
@@ -1062,7 +1085,7 @@ def _oracle_rec(case, w, rec, fids):
                     "signature": {"clause": clause, **sig}})
 
     # which nodes may run, level by level, up to the first level that must refuse
-    allowed, level_of, refusing, closures = set(), {}, None, {}
+    allowed, level_of, refusing, closures, exec_where = set(), {}, None, {}, None
     for j, a in enumerate(levels):
         cl, cyc = _reach(deps, a)
         closures[a] = cl
@@ -1070,6 +1093,11 @@ def _oracle_rec(case, w, rec, fids):
             refusing = (j, "cyclic")
         elif cl & execs:
             refusing = (j, "exec")
+            exec_where = "closure"
+        elif len(cl) > 1 and parent.get(a) in execs:
+            # something upstream would be run by a parent that has an executor: that run goes to the executor
+            refusing = (j, "exec")
+            exec_where = "driving-parent"
         elif any(x < 0 or parent.get(x) != parent.get(a) for x in cl):
             refusing = (j, "mixed")
         if refusing:
@@ -1086,6 +1114,9 @@ def _oracle_rec(case, w, rec, fids):
 
     # 1. nothing else runs
     outside = [g for g in log if g not in allowed]
+    if outcome == "ok" and refusing is not None and refusing[1] == "exec":
+        # the un-refused pull is reported once, as such (below); the target's own run is part of it
+        outside = [g for g in outside if g != t]
     if outside:
         bc0 = _ik(rec["before"]["conns"])
         out_after = _ik(rec["vals_after"]["out"])
@@ -1124,6 +1155,10 @@ def _oracle_rec(case, w, rec, fids):
         missing = sorted(allowed - set(inside) - hits)  # a node whose cache answers need not execute (C05)
         if refusing is not None and refusing[1] == "cyclic":
             fail("cyclic-not-refused", f"the data of level target {levels[refusing[0]]} is cyclic but the pull returned")
+        elif refusing is not None and refusing[1] == "exec":
+            fail("executor-not-refused", f"an executor sits on the {exec_where} of level target "
+                 f"{levels[refusing[0]]} but the pull returned; executed {log}, {rec.get('submitted', 0)} job(s) "
+                 f"handed to the executor", where=exec_where)
         elif missing:
             fail("closure-incomplete", f"upstream nodes {missing} did not run: {log}")
     else:
@@ -1133,6 +1168,8 @@ def _oracle_rec(case, w, rec, fids):
         if (refusing is None and not out and not (allowed & comps) and not (allowed & inner_fail)
                 and not ((set(rec["before"]["failed"]) | set(case.get("running", []))) & (allowed | drivers))):
             fail("unexpected-failure", f"nothing upstream is cyclic, on an executor, foreign or failing, yet: {rec['err']}")
+    if rec.get("submitted") and "executor-not-refused" not in [f["clause"] for f in out]:
+        fail("handed-to-executor", f"{rec['submitted']} job(s) were handed to an executor during the pull")
     # 5. the graph is as before, whatever the outcome
     b, a = rec["before"], rec["after"]
     bc, ac = _ik(b["conns"]), _ik(a["conns"])
@@ -1283,6 +1320,15 @@ def corpus():
         yield {**_mk("none", {"nodes": [{"gid": 5, "kind": "macro", "inner": {**dia, "xin": [[0, "a"]], "out": 4}}],
                               "edges": []}, 6, fails=[bad],
                      pulls=[[4, 0], ["repair"], ["edge", other, "b", bad], [4, 1]]), "replica": 2}
+    # executors on ENCLOSING scopes (a parking executor that never starts a job): the workflow root / the enclosing
+    # macro; a call with the parent scopes must be refused at that level; a plain pull whose upstream run the
+    # parent would have to drive must be refused as well (KF-C11-6 while it is not)
+    yield {**_mk("wf", chain3, 4, execs=[3], pulls=[[1, 1]]), "call": True}
+    yield _mk("wf", chain3, 4, execs=[3], pulls=[[2, 0]])
+    yield _mk("wf", chain3, 4, execs=[3], pulls=[[0, 0]])
+    yield {**_mk("wf", deep, 7, execs=[4], pulls=[[1, 1]]), "call": True}
+    yield _mk("wf", deep, 7, execs=[3], pulls=[[1, 0]])
+    yield {**_mk("wf", deep, 7, execs=[6], pulls=[[1, 1]]), "call": True}
     # caching on: the second and third pull meet the caches the first one filled; nothing outside may run
     yield {**_mk("wf", chain3, 4, post={"signals": [["rr", 0, 2]], "dagwire": [3]}, pulls=[[2, 0], [2, 0], [1, 1]]),
            "cache": True}
